@@ -33,6 +33,7 @@ from xdsl.ir import (
 )
 from xdsl.irdl import (
     BaseAccessor,
+    BaseAttrAccessor,
     ConstraintContext,
     IRDLOperation,
     IRDLOperationInvT,
@@ -40,6 +41,7 @@ from xdsl.irdl import (
     OptionalDef,
     ParamAttrDef,
     Successor,
+    VariadicDef,
     VarIRConstruct,
     VarOperand,
     get_construct_defs,
@@ -711,7 +713,24 @@ class OperandsOrResultDirective(TypeableDirective, ABC):
         op_def = op_type.get_irdl_definition()
         verify_variadic_same_size(len(set_to), op_def, construct, field_name)
 
-        for i, (name, _) in enumerate(get_construct_defs(op_def, construct)):
+        defs = get_construct_defs(op_def, construct)
+        if any(
+            isinstance(op_type.__dict__[name], BaseAttrAccessor) for name, _ in defs
+        ):
+            # The definition stores its segment sizes in an attribute, which does not
+            # exist yet while parsing. The format compiler only accepts this directive
+            # with at most one variadic definition, so the split is positional.
+            num_variadic = len(set_to) - sum(
+                not isinstance(d, VariadicDef) for _, d in defs
+            )
+            start = 0
+            for i, (_, d) in enumerate(defs):
+                size = num_variadic if isinstance(d, VariadicDef) else 1
+                field[i] = tuple(set_to[start : start + size])
+                start += size
+            return
+
+        for i, (name, _) in enumerate(defs):
             accessor = op_type.__dict__[name]
             assert isinstance(accessor, BaseAccessor)
             res = accessor.index(set_to)
